@@ -32,4 +32,4 @@ def run(tier, replay=None):
             ("lzip-3w-drop2", "lzip", 3, ["M", "M", "M", "M"], dict(drop_after=2), "tour"),
         ]
     plan = reader_cfgs(rows) + writer_cfgs(quick, drop=True)
-    run_plan(ctx, {"C10"}, plan, quick)
+    run_plan(ctx, {"C10"}, plan, quick, workqueue=True)
